@@ -134,6 +134,7 @@ type ContractSet struct {
 	extPkgDecls   map[string][]string
 	errs      []string
 	notes     []string
+	renames   []*rebinding
 }
 
 var pkgDirs = []string{"", "xmlenc", "samlsp", "samlidp"}
@@ -624,7 +625,12 @@ type funcSig struct {
 	results []string
 	rnames  []string
 	file    string
+	calls   []string // names of the functions and methods the body calls (syntactic)
 }
+
+// structFields: struct type name -> field name -> type, of the package last scanned by scanPackage (used by the
+// re-binding of contracts of renamed functions only)
+var structFields = map[string]map[string]map[string]string{}
 
 func exprString(fset *token.FileSet, e ast.Expr) string {
 	var b bytes.Buffer
@@ -662,6 +668,28 @@ func scanPackage(dir string) (map[string]*funcSig, []importSpec, error) {
 			imps = append(imps, importSpec{alias, p})
 		}
 		for _, d := range f.Decls {
+			if gd, ok := d.(*ast.GenDecl); ok && gd.Tok == token.TYPE {
+				for _, sp := range gd.Specs {
+					ts, ok := sp.(*ast.TypeSpec)
+					if !ok {
+						continue
+					}
+					stt, ok := ts.Type.(*ast.StructType)
+					if !ok {
+						continue
+					}
+					if structFields[dir] == nil {
+						structFields[dir] = map[string]map[string]string{}
+					}
+					fm := map[string]string{}
+					for _, fl := range stt.Fields.List {
+						for _, nm := range fl.Names {
+							fm[nm.Name] = exprString(fset, fl.Type)
+						}
+					}
+					structFields[dir][ts.Name.Name] = fm
+				}
+			}
 			fd, ok := d.(*ast.FuncDecl)
 			if !ok {
 				continue
@@ -671,6 +699,26 @@ func scanPackage(dir string) (map[string]*funcSig, []importSpec, error) {
 				key = "(" + exprString(fset, fd.Recv.List[0].Type) + ")." + key
 			}
 			sigs[key] = buildSig(fset, n, fd.Recv, fd.Type)
+			if fd.Body != nil {
+				seen := map[string]bool{}
+				ast.Inspect(fd.Body, func(x ast.Node) bool {
+					if ce, ok := x.(*ast.CallExpr); ok {
+						nm := ""
+						switch f := ce.Fun.(type) {
+						case *ast.Ident:
+							nm = f.Name
+						case *ast.SelectorExpr:
+							nm = f.Sel.Name
+						}
+						if nm != "" && !seen[nm] {
+							seen[nm] = true
+							sigs[key].calls = append(sigs[key].calls, nm)
+						}
+					}
+					return true
+				})
+				sort.Strings(sigs[key].calls)
+			}
 			// function literals, numbered the way go/ssa names them: Outer$1, Outer$2, Outer$1$1 ...
 			var lits func(node ast.Node, prefix string)
 			lits = func(node ast.Node, prefix string) {
@@ -771,6 +819,7 @@ var sigRe = regexp.MustCompile(`^func\s*\((.*)\)\s*(\(.*\)|[^()\s].*)?$`)
 // buildOverlay synthesises one spec file per package.
 func (cs *ContractSet) buildOverlay() (map[string][]byte, error) {
 	overlay := map[string][]byte{}
+	fbase := loadFuncBaseline()
 	n := 0
 	for _, dir := range pkgDirs {
 		sigs, srcImps, err := scanPackage(filepath.Join(repoDir, dir))
@@ -820,10 +869,15 @@ func (cs *ContractSet) buildOverlay() (map[string][]byte, error) {
 		for _, d := range sf.goDecls {
 			body.WriteString(d + "\n")
 		}
+		var curRB *rebinding
 		emit := func(cl *Clause, params []string) {
 			n++
 			cl.FnName = fmt.Sprintf("spec_%d_%s", n, sanitize(cl.Label))
-			fmt.Fprintf(&body, "func %s(%s) bool { return %s }\n", cl.FnName, strings.Join(params, ", "), rewriteImplies(strings.Replace(cl.Text, "\n", " ", -1)))
+			pro := ""
+			if curRB != nil {
+				pro = curRB.Prologue
+			}
+			fmt.Fprintf(&body, "func %s(%s) bool { %sreturn %s }\n", cl.FnName, strings.Join(params, ", "), pro, rewriteImplies(strings.Replace(curRB.apply(cl.Text), "\n", " ", -1)))
 		}
 		for _, gi := range cs.globalInvs {
 			if gi.Pkg != dir {
@@ -849,12 +903,29 @@ func (cs *ContractSet) buildOverlay() (map[string][]byte, error) {
 			if sig == nil && ct.RawKey == "init" {
 				sig = &funcSig{} // every package has an initialiser, declared or not
 			}
+			var rb *rebinding
 			if sig == nil {
-				// the function under contract no longer exists under that name and receiver: not a load error - the checks that
-				// list it as a unit report it as a failed obligation (function-under-contract-missing)
+				// the function under contract no longer exists under that name and receiver: renamed or re-signatured?
+				taken := map[string]bool{}
+				for _, o := range cs.contracts {
+					if o.Pkg == dir {
+						taken[o.RawKey] = true
+					}
+				}
+				if rb = findRenamed(dir, ct.RawKey, fbase[dir][ct.RawKey], sigs, fbase, taken, structFields[filepath.Join(repoDir, dir)]); rb != nil {
+					cs.renames = append(cs.renames, rb)
+					cs.notes = append(cs.notes, rb.Note)
+					ct.RawKey = rb.New
+					ct.Key = contractKey(dir, rb.New)
+					sig = sigs[rb.New]
+				}
+			}
+			if sig == nil {
+				// not a load error: the contract is stale, the checks that list the function as a unit say so
 				cs.notes = append(cs.notes, fmt.Sprintf("%s: stale contract: function %s not found in package %s", ct.File, ct.RawKey, pkgShort(dir)))
 				continue
 			}
+			curRB = rb
 			for _, cl := range ct.Requires {
 				emit(cl, sig.params)
 			}
@@ -863,6 +934,26 @@ func (cs *ContractSet) buildOverlay() (map[string][]byte, error) {
 			}
 			for _, cl := range ct.Asserts {
 				ps := append(append([]string{}, sig.params...), cl.ExtraParams...)
+				if rb != nil {
+					// a `uses` local that now is a parameter of the re-bound function: the parameter serves
+					var vn, vt, vl []string
+					for i, v := range cl.VarNames {
+						isParam := false
+						for _, pn := range sig.pnames {
+							if pn == v {
+								isParam = true
+							}
+						}
+						if isParam && (i >= len(cl.VarLocal) || cl.VarLocal[i] == v) {
+							continue
+						}
+						vn, vt = append(vn, v), append(vt, cl.VarTypes[i])
+						if i < len(cl.VarLocal) {
+							vl = append(vl, cl.VarLocal[i])
+						}
+					}
+					cl.VarNames, cl.VarTypes, cl.VarLocal = vn, vt, vl
+				}
 				for i, v := range cl.VarNames {
 					ps = append(ps, v+" "+cl.VarTypes[i])
 				}
@@ -870,7 +961,7 @@ func (cs *ContractSet) buildOverlay() (map[string][]byte, error) {
 				if cl.Derive != "" {
 					n++
 					cl.DeriveFnName = fmt.Sprintf("derive_%d_%s", n, sanitize(cl.Label))
-					fmt.Fprintf(&body, "func %s(%s) bool { return %s }\n", cl.DeriveFnName, strings.Join(ps, ", "), cl.Derive)
+					fmt.Fprintf(&body, "func %s(%s) bool { return %s }\n", cl.DeriveFnName, strings.Join(ps, ", "), curRB.apply(cl.Derive))
 				}
 			}
 			for _, cl := range ct.Loops {
@@ -881,6 +972,7 @@ func (cs *ContractSet) buildOverlay() (map[string][]byte, error) {
 				ps = append(ps, "iter int")
 				emit(cl, ps)
 			}
+			curRB = nil
 		}
 		for _, ec := range cs.externs {
 			if ec.Pkg != dir {
@@ -1062,6 +1154,12 @@ func (cs *ContractSet) resolve(e *Engine) {
 		}
 		e.axiomDefs = append(e.axiomDefs, ax)
 	}
+	for _, rb := range cs.renames {
+		e.renamedBare[bareName(rb.Old)] = bareName(rb.New)
+		e.renamedKey[contractKey(rb.Dir, rb.Old)] = contractKey(rb.Dir, rb.New)
+		e.renamedNew[contractKey(rb.Dir, rb.New)] = contractKey(rb.Dir, rb.Old)
+	}
+	e.stale = append(e.stale, cs.notes...)
 	for _, ct := range cs.contracts {
 		fn := e.funcs[ct.Key]
 		if fn == nil {
